@@ -261,7 +261,7 @@ def gen_case(rng):
 
 
 def plan(tier, seed, n):
-    per = 300 if tier == 'quick' else 12000
+    per = 800 if tier == 'quick' else 40000
     return [{'n': per} for _ in range(n)]
 
 
